@@ -144,20 +144,20 @@ structure Leaf (cs : List Cls) (rt : CState) (l : Cls) (e0 : Eff) : Prop where
   impl : (rt.impl = .hooked (saAttrs rt.attrs (normalise rt.attrs e0)) ∧ rt.wroteHooks = true) ∨
          (rt.impl = .object ∧ (saAttrs rt.attrs (normalise rt.attrs e0)).isEmpty = true)
 
-theorem leaf_of_clean (c : Case) (rt : CState) (hw : wf c = true) (hc : clean c.classes = true)
-    (hd : defineChain c.classes = .ok rt) (hk : rt.inheritsHooks = false) :
-    ∃ l e0, Leaf c.classes rt l e0 := by
+theorem leaf_of_clean (c : Case) (rt : CState) (hw : wf c = true) (hc : clean c.cls = true)
+    (hd : defineChain c.cls = .ok rt) (hk : rt.inheritsHooks = false) :
+    ∃ l e0, Leaf c.cls rt l e0 := by
   unfold wf at hw
   simp only [Bool.and_eq_true] at hw
   obtain ⟨hwf, hlast⟩ := hw
   -- split off the leaf
-  cases hgl : c.classes.getLast? with
+  cases hgl : c.cls.getLast? with
   | none => simp [hgl] at hlast
   | some l =>
     simp only [hgl, beq_iff_eq] at hlast
-    obtain ⟨pre, hpre⟩ : ∃ pre, c.classes = pre ++ [l] := List.getLast?_eq_some_iff.1 hgl
-    have hinv : Inv c.classes rt := by
-      have := defineFrom_inv c.classes [] CState.root 0 rt inv_root hwf hd
+    obtain ⟨pre, hpre⟩ : ∃ pre, c.cls = pre ++ [l] := List.getLast?_eq_some_iff.1 hgl
+    have hinv : Inv c.cls rt := by
+      have := defineFrom_inv c.cls [] CState.root 0 rt inv_root hwf hd
       simpa using this
     rw [hpre] at hd hc hwf
     unfold defineChain at hd
